@@ -8,7 +8,7 @@ export GOFLAGS=-mod=mod GOPROXY=off GOSUMDB=off GOTOOLCHAIN=local
 S=$(mktemp -d /tmp/vseed.XXXXXX); B=$(mktemp -d /tmp/vbase.XXXXXX)
 rsync -a --exclude .git /repo/ $S/; rsync -a --exclude .git /repo/ $B/
 ( cd $S && patch -p1 -s < $sd/patch.diff ) || { echo "PATCH DOES NOT APPLY"; rm -rf $S $B; exit 2; }
-dir=$(head -1 $sd/demo_test.go | sed -n 's#^// dir: *##p'); [ -z "$dir" ] && dir=.
+dir=$(head -1 $sd/demo_test.go | sed -n 's#^// dir: *##p' | awk '{print $1}'); [ -z "$dir" ] && dir=.
 cp $sd/demo_test.go $S/$dir/zz_seed_demo_test.go; cp $sd/demo_test.go $B/$dir/zz_seed_demo_test.go
 race=""; grep -q "\-race" $sd/notes.md 2>/dev/null && [ "$prop" = "C15" ] && race="-race"
 ( cd $S && go build ./... ) || { echo "DOES NOT COMPILE"; rm -rf $S $B; exit 2; }
